@@ -17,16 +17,14 @@ type Groups<T> = BTreeMap<GroupKey, HashMap<usize, T>>;
 
 pub struct AggregateExecutionEngine {
     group_aggregators: Groups<GroupAggregator>,
-    group_values: Groups<Value>,
-    distinct_values: DistinctValues
+    group_values: Groups<Value>
 }
 
 impl AggregateExecutionEngine {
     pub fn new() -> AggregateExecutionEngine {
         AggregateExecutionEngine {
             group_aggregators: Groups::new(),
-            group_values: Groups::new(),
-            distinct_values: DistinctValues::new()
+            group_values: Groups::new()
         }
     }
 
@@ -274,6 +272,7 @@ impl AggregateExecutionEngine {
         let mut group_value_iterator = self.group_values.values();
 
         let having_aggregates = extract_having_aggregates(aggregate_statement)?;
+        let mut distinct_values = DistinctValues::new();
 
         for row_index in 0..num_rows {
             let mut result_columns = Vec::new();
@@ -294,10 +293,12 @@ impl AggregateExecutionEngine {
                     continue;
                 }
 
-                if aggregate_statement.distinct {
-                    if !self.distinct_values.add(&result_columns) {
-                        continue;
-                    }
+            }
+
+            // DISTINCT removes duplicate rows from each result table (with or without HAVING)
+            if aggregate_statement.distinct {
+                if !distinct_values.add(&result_columns) {
+                    continue;
                 }
             }
 
